@@ -167,6 +167,53 @@ theorem toPES_conserves (K : ℕ) (dr c : ℝ) (hdr : dr ≠ 0) (hc : c ≠ 0) (
   | zero => simp
   | succ M => rw [gen M, hK]; ring
 
+open Finset in
+section
+/-- with its options, `toPES` is `toPES` with the effective calibration factor; a photon energy only mirrors the energy axis -/
+theorem toPESOpts_eq (radial I : ℕ → ℝ) (c : ℝ) (vrep : Option ℝ) (zoom : ℝ) (k : ℕ) :
+    toPESOpts radial I c vrep zoom none true k = toPES radial I (effCal c vrep zoom) k := by
+  simp [toPESOpts, toPES]
+
+theorem toPESOpts_photon (radial I : ℕ → ℝ) (c : ℝ) (vrep : Option ℝ) (zoom hv : ℝ) (k : ℕ) :
+    toPESOpts radial I c vrep zoom (some hv) true k
+      = (hv - (toPES radial I (effCal c vrep zoom) k).1, (toPES radial I (effCal c vrep zoom) k).2) := by
+  simp [toPESOpts, toPES]
+
+theorem effCal_ne_zero (c : ℝ) (vrep : Option ℝ) (zoom : ℝ) (hc : c ≠ 0) (hz : zoom ≠ 0) (hv : ∀ v, vrep = some v → v ≠ 0) :
+    effCal c vrep zoom ≠ 0 := by
+  unfold effCal
+  cases vrep with
+  | none => exact hc
+  | some v =>
+    have : v ≠ 0 := hv v rfl
+    show c * HasAbs.abs v / (zoom * zoom) ≠ 0
+    have ha : HasAbs.abs v = |v| := rfl
+    rw [ha]
+    have : (0 : ℝ) < |v| := abs_pos.mpr this
+    positivity
+
+/-- **toPES conserves the integrated intensity with every option**: repeller voltage and zoom (any non-zero values), kinetic or
+    binding energies — the trapezoid sums over the energy grid and over the radial grid agree (up to the sign of the mirrored axis) -/
+theorem toPES_conserves_opts (K : ℕ) (dr c zoom : ℝ) (vrep photon : Option ℝ) (hdr : dr ≠ 0) (hc : c ≠ 0) (hz : zoom ≠ 0)
+    (hv : ∀ v, vrep = some v → v ≠ 0) (I : ℕ → ℝ) (h0 : I 0 = 0) (hK : I K = 0) :
+    (∑ k ∈ range K,
+        ((toPESOpts (fun k => (k : ℝ) * dr) I c vrep zoom photon true k).2 + (toPESOpts (fun k => (k : ℝ) * dr) I c vrep zoom photon true (k + 1)).2) / 2
+          * ((toPESOpts (fun k => (k : ℝ) * dr) I c vrep zoom photon true (k + 1)).1 - (toPESOpts (fun k => (k : ℝ) * dr) I c vrep zoom photon true k).1))
+      = (match photon with | some _ => -1 | none => 1) * ∑ k ∈ range K, (I k + I (k + 1)) / 2 * dr := by
+  have hce := effCal_ne_zero c vrep zoom hc hz hv
+  have base := toPES_conserves K dr (effCal c vrep zoom) hdr hce I h0 hK
+  cases photon with
+  | none =>
+    simp only [toPESOpts_eq, one_mul]
+    exact base
+  | some hvv =>
+    simp only [toPESOpts_photon]
+    rw [← base, Finset.mul_sum]
+    apply Finset.sum_congr rfl
+    intro k _
+    ring
+end
+
 /-! ### 6. circularisation with a constant correction samples every pixel at itself -/
 
 theorem circularize_const_id (X Y c : ℝ) (hc : c ≠ 0) : circularizeCoords X Y c c = (X, Y) := by
